@@ -5,7 +5,7 @@
 # writes /verif/seeded/<ID>-<V>/{patch.diff,demo.rs,notes.md,meta.json}
 set -u
 ID="$1"; V="$2"; shift 2
-WT=/tmp/seed3-$ID; SRC=$WT/out/$V; DST=/verif/seeded/$ID-3$V
+WT=/tmp/seed4-$ID; SRC=$WT/out/$V; DST=/verif/seeded/$ID-4$V
 [ -f "$SRC/patch.diff" ] || { echo "no patch at $SRC"; exit 2; }
 export CARGO_NET_OFFLINE=true CARGO_TARGET_DIR=$WT/target
 cd $WT || exit 2
@@ -47,7 +47,7 @@ meta={"breaks_property":ID,"variant":V,"suite_with_patch":suite,"demo_with_patch
       "checks_run":checks.split(),"tier":"quick","detected_by":det.split(),
       "what_i_ran":"tools/verify_seed.sh %s %s (scratch worktree: cargo test --workspace, demo with/without patch; then git -C /repo apply, ./check <id> quick for each listed check, git -C /repo checkout -- .)"%(ID,V)}
 try:
-    meta["needs_to_manifest"]=open("/verif/seeded/%s-3%s/notes.md"%(ID,V)).read()[:1500]
+    meta["needs_to_manifest"]=open("/verif/seeded/%s-4%s/notes.md"%(ID,V)).read()[:1500]
 except Exception: pass
-json.dump(meta,open("/verif/seeded/%s-3%s/meta.json"%(ID,V),"w"),indent=1)
+json.dump(meta,open("/verif/seeded/%s-4%s/meta.json"%(ID,V),"w"),indent=1)
 PY
